@@ -436,6 +436,8 @@ func runC04(e *Engine, r *Report) {
 	ruleDurableMkdir(e, r)
 	ruleTanManifestSync(e, r)
 	ruleTanNewLogOrder(e, r)
+	ruleReplaySetsState(e, r)
+	ruleSnapshotRecordKeepsLogEnd(e, r)
 }
 
 // runPebbleSync: every pebble write in the kv wrapper takes the options value
